@@ -206,6 +206,7 @@ type op struct {
 	path    string
 	content string // token
 	how     string // for C: copy|tar|zip ; for p: atomic?
+	tmp     string // T / R: base name of the temp file the in-flight atomic put shows on disk
 }
 
 func (o op) enc() string {
@@ -216,6 +217,8 @@ func (o op) enc() string {
 		return "p:" + strconv.Itoa(o.base) + ":" + hx.Enc(o.path) + ":" + o.content
 	case 'd', 'D':
 		return string(o.kind) + ":" + strconv.Itoa(o.base) + ":" + hx.Enc(o.path)
+	case 'T', 'R':
+		return string(o.kind) + ":" + strconv.Itoa(o.base) + ":" + hx.Enc(o.path) + ":" + hx.Enc(o.tmp) + ":" + o.content
 	default:
 		return "C:" + strconv.Itoa(o.base)
 	}
@@ -231,6 +234,10 @@ func (o op) String() string {
 		return fmt.Sprintf("deleteAll base%d %q", o.base, o.path)
 	case 'C':
 		return fmt.Sprintf("%s composite->base%d", o.how, o.base)
+	case 'T':
+		return fmt.Sprintf("put[atomic, writer left open] base%d %q %s (temp file %q)", o.base, o.path, o.content, o.tmp)
+	case 'R':
+		return fmt.Sprintf("close the open writer of base%d %q", o.base, o.path)
 	default:
 		return fmt.Sprintf("%c %q", o.kind, o.path)
 	}
@@ -254,8 +261,42 @@ func must(err error) {
 	}
 }
 
+// caseCfg parametrises a history case: the path vocabulary (nil = the default pool), the chance
+// of a disk base, and — for the scripted name sweep of names.go — a fixed expression, fixed base
+// kinds and a fixed op list instead of the random ones.
+type caseCfg struct {
+	vocab     *vocab
+	diskNum   int // a base is a disk bucket with chance diskNum/diskDen
+	diskDen   int
+	forceDisk []bool
+	forceExpr *expr
+	script    []op
+	onlyIdx   int // the --only index that regenerates this case
+	tag       string
+}
+
 func runCase(run *hx.Run, idx int, r *hx.Rand, tmpRoot string) {
+	runCaseCfg(run, idx, r, tmpRoot, caseCfg{diskNum: 1, diskDen: 3, onlyIdx: idx, tag: "h"})
+}
+
+// inflight is an atomic Put whose writer is still open (op T done, op R pending).
+type inflight struct {
+	base    int
+	path    string
+	content string
+	w       storage.WriteObjectCloser
+	tmpName string // base name of the temp file found on disk ("" = none visible)
+	tmpKey  string // its bucket path
+	reads   int    // reads left before the writer is closed
+}
+
+func runCaseCfg(run *hx.Run, idx int, r *hx.Rand, tmpRoot string, cfg caseCfg) {
+	restore := useVocab(cfg.vocab)
+	defer restore()
 	nb := 1 + r.Intn(3)
+	if cfg.forceDisk != nil {
+		nb = len(cfg.forceDisk)
+	}
 	disk := make([]bool, nb)
 	bases := make([]storage.ReadWriteBucket, nb)
 	ref := make([]map[string]string, nb)
@@ -263,11 +304,14 @@ func runCase(run *hx.Run, idx int, r *hx.Rand, tmpRoot string) {
 	var tmp string
 	anyDisk := false
 	for i := range bases {
-		disk[i] = r.Chance(1, 3)
+		disk[i] = r.Chance(cfg.diskNum, cfg.diskDen)
+		if cfg.forceDisk != nil {
+			disk[i] = cfg.forceDisk[i]
+		}
 		ref[i] = map[string]string{}
 		if disk[i] {
 			if tmp == "" {
-				tmp = filepath.Join(tmpRoot, "c"+strconv.Itoa(idx))
+				tmp = filepath.Join(tmpRoot, cfg.tag+strconv.Itoa(idx))
 			}
 			d := filepath.Join(tmp, "b"+strconv.Itoa(i))
 			must(os.MkdirAll(d, 0o755))
@@ -284,6 +328,9 @@ func runCase(run *hx.Run, idx int, r *hx.Rand, tmpRoot string) {
 		defer os.RemoveAll(tmp)
 	}
 	e := genExpr(r, nb, 3)
+	if cfg.forceExpr != nil {
+		e = cfg.forceExpr
+	}
 	comp := e.build(bases)
 	var ops []op
 	var results []string
@@ -296,8 +343,14 @@ func runCase(run *hx.Run, idx int, r *hx.Rand, tmpRoot string) {
 	}
 	fail := func(class, what string) {
 		run.Fail(hx.OracleFailure{Class: class, What: what, Input: input(),
-			Replay: fmt.Sprintf("build/c14 --out /tmp/c14-replay --seed %d --tier %s --only %d", run.Seed, run.Tier, idx)})
+			Replay: fmt.Sprintf("build/c14 --out /tmp/c14-replay --seed %d --tier %s --only %d", run.Seed, run.Tier, cfg.onlyIdx)})
 	}
+	var pend *inflight
+	defer func() {
+		if pend != nil && pend.w != nil {
+			pend.w.Close()
+		}
+	}()
 	defer func() {
 		if p := recover(); p != nil {
 			fail("harness-panic", fmt.Sprint(p))
@@ -305,10 +358,50 @@ func runCase(run *hx.Run, idx int, r *hx.Rand, tmpRoot string) {
 	}()
 	// a few initial puts so reads see something
 	nOps := 6 + r.Intn(14)
-	for i := 0; i < nOps; i++ {
+	if cfg.script != nil {
+		nOps = len(cfg.script)
+	}
+	for i := 0; i < nOps || pend != nil; i++ {
 		var o op
 		k := r.Intn(20)
+		if pend == nil && cfg.script == nil && i >= 3 && i+3 < nOps && r.Chance(1, 9) {
+			k = 100 // start an atomic put and keep its writer open over the next reads
+		}
+		if pend != nil && cfg.script == nil {
+			// while the writer is open only reads are generated; then it is closed
+			if pend.reads == 0 {
+				k = 101
+			} else {
+				pend.reads--
+				k = 11 + r.Intn(7)
+				if r.Chance(1, 3) {
+					k = 102
+				}
+			}
+		}
 		switch {
+		case cfg.script != nil:
+			if i < len(cfg.script) {
+				o = cfg.script[i]
+			} else {
+				o = op{kind: 'R'}
+			}
+		case k == 100:
+			o = op{kind: 'T', base: r.Intn(nb), path: spell(r, hx.Pick(r, pool)), content: "T" + strconv.Itoa(i), how: "atomic-open"}
+			if r.Chance(1, 10) {
+				o.path = hx.Pick(r, append([]string{".", "../x", "b/child", "a/x/deep"}, dirs...))
+			}
+		case k == 101:
+			o = op{kind: 'R', base: pend.base, path: pend.path, content: pend.content, tmp: pend.tmpName, how: "atomic-close"}
+		case k == 102:
+			// aim at the temp file and its directory
+			o = op{kind: hx.Pick(r, []byte{'g', 's', 'w'}), path: pend.tmpKey}
+			if pend.tmpKey == "" {
+				o.path = pend.path
+			}
+			if o.kind == 'w' && r.Bool() {
+				o.path = normalpath.Dir(o.path)
+			}
 		case k < 7 || i < 3:
 			o = op{kind: 'p', base: r.Intn(nb), path: spell(r, hx.Pick(r, pool)), content: "C" + strconv.Itoa(i), how: "plain"}
 			if r.Chance(1, 8) {
@@ -371,6 +464,29 @@ func runCase(run *hx.Run, idx int, r *hx.Rand, tmpRoot string) {
 		}
 		var res string
 		switch o.kind {
+		case 'T':
+			if pend != nil {
+				continue
+			}
+			res, pend = beginInflight(run, bases[o.base], disk[o.base], diskRoots[o.base], o, 1+r.Intn(3))
+			if pend != nil {
+				o.tmp = pend.tmpName
+				if cfg.script != nil {
+					pend.reads = 0
+				}
+			}
+		case 'R':
+			if pend == nil {
+				continue
+			}
+			o.base, o.path, o.content, o.tmp = pend.base, pend.path, pend.content, pend.tmpName
+			err := pend.w.Close()
+			res = bk.ErrClass(err)
+			if err == nil {
+				n, _ := normalpath.NormalizeAndValidate(o.path)
+				ref[o.base][n] = canonContent(materialize(o.content))
+			}
+			pend = nil
 		case 'p':
 			var opts []storage.PutOption
 			if o.how == "atomic" {
@@ -505,6 +621,24 @@ func runCase(run *hx.Run, idx int, r *hx.Rand, tmpRoot string) {
 				}
 				got[kv.K] = canonContent(kv.V)
 			}
+			if pend != nil && pend.base == i && pend.tmpKey != "" {
+				// The temp file of the in-flight atomic put: the property does not say whether it
+				// is shown (as coded it IS a regular file of the directory, so Walk lists it and
+				// Get serves it — the model says so and the correspondence compares it).  The
+				// oracle only asks that Walk and Get agree about it, and otherwise ignores it.
+				_, listed := got[pend.tmpKey]
+				_, gerr := bk.ReadAll(ctx, bases[i], pend.tmpKey)
+				run.Eval()
+				if listed {
+					run.Count("inflight:walk-lists-temp-file")
+				} else {
+					run.Count("inflight:walk-hides-temp-file")
+				}
+				if listed != (gerr == nil) {
+					fail("inflight-temp-walk-get-incoherent", fmt.Sprintf("while an atomic put of %q on base%d is in flight its temp file %q: listed by walk=%v, get error=%v", pend.path, i, pend.tmpKey, listed, gerr))
+				}
+				delete(got, pend.tmpKey)
+			}
 			if !sameMap(ref[i], got) {
 				fail("base-vs-reference-map", fmt.Sprintf("after %s base%d (disk=%v) holds %v but the reference map holds %v", o.String(), i, disk[i], got, ref[i]))
 				// resync so one divergence is reported once
@@ -571,6 +705,53 @@ func runCase(run *hx.Run, idx int, r *hx.Rand, tmpRoot string) {
 		in["results"] = results
 		run.Sample(in)
 	}
+}
+
+// beginInflight starts an atomic Put, writes the content and leaves the writer open.  On a disk
+// base the temp file the implementation created is found by listing the object's directory
+// before and after.
+func beginInflight(run *hx.Run, b storage.ReadWriteBucket, isDisk bool, root string, o op, reads int) (string, *inflight) {
+	n, verr := normalpath.NormalizeAndValidate(o.path)
+	var dir string
+	before := map[string]bool{}
+	if isDisk && verr == nil {
+		dir = filepath.Join(root, filepath.FromSlash(normalpath.Dir(n)))
+		if es, err := os.ReadDir(dir); err == nil {
+			for _, e := range es {
+				before[e.Name()] = true
+			}
+		}
+	}
+	w, err := b.Put(ctx, o.path, storage.PutWithAtomic())
+	if err != nil {
+		return bk.ErrClass(err), nil
+	}
+	if _, err := w.Write([]byte(materialize(o.content))); err != nil {
+		w.Close()
+		return "err:write", nil
+	}
+	p := &inflight{base: o.base, path: o.path, content: o.content, w: w, reads: reads}
+	if isDisk && verr == nil {
+		es, err := os.ReadDir(dir)
+		must(err)
+		for _, e := range es {
+			if !before[e.Name()] && e.Type().IsRegular() {
+				if p.tmpName != "" {
+					panic("two new files in " + dir)
+				}
+				p.tmpName = e.Name()
+			}
+		}
+		if p.tmpName != "" {
+			p.tmpKey = normalpath.Join(normalpath.Dir(n), p.tmpName)
+			run.Count("inflight:disk-temp-file-found")
+		} else {
+			run.Count("inflight:disk-no-temp-file")
+		}
+	} else {
+		run.Count("inflight:memory")
+	}
+	return "ok", p
 }
 
 func errTag(res string) string {
@@ -1215,6 +1396,24 @@ func main() {
 			continue
 		}
 		guarded(run, fmt.Sprintf("union case %d", i), func() { os.RemoveAll(tmpRoot) }, func() { runUnion(run, i, ru.Fork(uint64(i)), tmpRoot) })
+	}
+	// name family (names.go): scripted sweep, then random histories over family pools
+	rn := r.Fork(1 << 43)
+	nsAll := nameSweepCount()
+	ns := run.N(nsAll, nsAll)
+	for i := 0; i < ns; i++ {
+		if run.Only >= 0 && run.Only != nameSweepBase+i {
+			continue
+		}
+		guarded(run, fmt.Sprintf("name sweep case %d", i), func() { os.RemoveAll(tmpRoot) }, func() { runNameSweep(run, i, rn.Fork(uint64(i)), tmpRoot) })
+	}
+	rm := r.Fork(1 << 44)
+	nm := run.N(300, 3000)
+	for i := 0; i < nm; i++ {
+		if run.Only >= 0 && run.Only != nameRandBase+i {
+			continue
+		}
+		guarded(run, fmt.Sprintf("name case %d", i), func() { os.RemoveAll(tmpRoot) }, func() { runNames(run, i, rm.Fork(uint64(i)), tmpRoot) })
 	}
 	if run.Only < 0 {
 		ra := r.Fork(1 << 40)
